@@ -245,6 +245,11 @@ func getPrevSnapshot(testID, snapPath string) (string, int, error) {
 }
 
 func addNewSnapshot(testID, snapshot, snapPath string) error {
+	// appending must exclude updateSnapshot's read-truncate-write of the same file,
+	// otherwise an append landing in between is lost or torn.
+	_m.Lock()
+	defer _m.Unlock()
+
 	if err := os.MkdirAll(filepath.Dir(snapPath), os.ModePerm); err != nil {
 		return err
 	}
